@@ -104,6 +104,10 @@ def run(op):
         import cdd.docstring.parse
         ir = cdd.docstring.parse.docstring(op["text"], **(op.get("parse_opts") or {}))
         return cdd.docstring.emit.docstring(ir, **opts)
+    if kind == "parse_route":
+        # a bottle route function (decorated, with an OpenAPI YAML block in its docstring) through the routes parser
+        import cdd.routes.parse.bottle
+        return cdd.routes.parse.bottle.bottle(_first_def(op["source"], (ast.FunctionDef,)))
     if kind == "parse_docstring_emit":
         # a bare docstring (an interface without a name) parsed, then emitted in another shape
         import cdd.docstring.parse
